@@ -203,7 +203,14 @@ class Cases:
             if not (idx[0] == "tuple" and len(idx[1]) == 2):
                 raise Inconclusive("W store with an unrecognised index %s" % fmt(idx)[:60])
             r, c = idx[1]
+
+            def pick(t_):          # a target list chosen by earlier branches: follow the branch this valuation takes
+                while isinstance(t_, tuple) and t_ and t_[0] == "phi":
+                    t_ = t_[2] if self.truth(t_[1]) else t_[3]
+                return t_
+            r, c = pick(r), pick(c)
             r, c = strip_destroy(r)[0], strip_destroy(c)[0]       # which columns are cut does not depend on their order
+            r, c = pick(r), pick(c)
             if not is_const(val, 0) or aug is not None:
                 raise Inconclusive("W store of a non-zero value")
             if r == FULL and parsed_col(c) and parsed_col(c)[1] == 0:
@@ -580,6 +587,9 @@ def run(prog, rep, tier):
         rep.check("RANGE.uniform", ok, fwhere(fc, us[0].node if us else None), "self.%s <- rng.uniform(%s[0], %s[1], size=p) from default_rng(random_state)" % (name, name, name),
                   "range sampling of %s deviates: %s" % (name, why))
     pattern_method(prog, rep, LG + "LGANM.sample", ["W"])
+    # the noise means and variances are plain numbers: nothing may be decided by their values, not even by "is it zero"
+    # (a variable with noise variance 0 is still random through its parents)
+    pattern_method(prog, rep, LG + "LGANM.sample", ["means", "variances"], rule="NODECISION", strict=True)
     from .common import no_foreign_writes
     no_foreign_writes(rep, prog, LG + "LGANM.sample")
     rep.exhaustive = True      # the finite tables (pairs / valuations) are enumerated completely
